@@ -117,7 +117,7 @@ def step (st : DState) (line : String) : DState × String :=
       s!"structured={bits (structuredClauses H st.htop)}",
       s!"conserved={bit (conserved G H)}",
       s!"tables={bit (tablesOK H)}",
-      s!"ctl={bit (ctlOK G H st.gtop st.htop)}"]
+      s!"ctl={bit (ctlOK H st.htop)}"]
     (st, out)
   | ["DIAG"] =>
     let G := st.g; let H := st.h
